@@ -442,7 +442,13 @@ func runFH(tb stat.TB, c fhCase, id, check string) {
 				}
 				pre = liveNow()
 				beforeRD := fm.Count() // (ensureDir may have allocated: count again right before the request)
-				r := s.nfs(nfsx.ProcReaddirplus, nfsx.ArgsReaddirplus(dirFh[op.Dir], 0, [8]byte{}, 1<<16, 1<<16))
+				// (every other listing asks for a page of about three entries: only what a reply carries needs a handle)
+				rdMax := uint32(1 << 16)
+				if op.K%2 == 1 {
+					rdMax = 700
+					labels["readdirplus_one_small_page"] = true
+				}
+				r := s.nfs(nfsx.ProcReaddirplus, nfsx.ArgsReaddirplus(dirFh[op.Dir], 0, [8]byte{}, rdMax, rdMax))
 				if r.Status != nfsx.OK {
 					continue
 				}
